@@ -81,7 +81,7 @@ def run(tier, seed):
     meta = {
         "level": "model_checking",
         "rule": "FS/SS workflows on 3 tasks x every assignment of the tasks to <=2 (thorough 3) components or to none (incl. empty components) x progress/auto variants, "
-        "plus the FAC family (nested components, placement), and a slice of all of these observed on a second simulate() of the same project object, each explored over absence answers (project, first worker) up to horizon H with <= D non-default answers; "
+        "plus the FAC family (nested components, placement), components wired through the constructor keyword only, a task listed by two components, runs stopped at step 1..5 and continued, and a slice of all of these observed on a second simulate() of the same project object, each explored over absence answers (project, first worker) up to horizon H with <= D non-default answers; "
         "non-trivial = distinct (model, component, mixed task-state vector, component state) observations",
         "bounds": {"H": H, "D": D, "base_models": len(its), "runs stopped at step 1..5 and continued": len(ri)},
         "assumptions": ["log clause uses the documented display rule (WORKING logged as READY at project-wide absence steps) for tasks and components alike"],
